@@ -63,16 +63,16 @@ Inductive leafty :=
 | LOpaque.                               (* a type the translator does not know *)
 
 Inductive err :=
-| EUnknownKey | EIndexScalar | EEnumUnknown | EDurValue | EDurUnits          (* alpaqa::params::invalid_param *)
+| EUnknownKey | EIndexScalar | EEnumUnknown | EDurValue | EDurUnits | EDurRange   (* alpaqa::params::invalid_param *)
 | EBadBool | ENumInvalid | ENumRange | ENumSuffix                            (* std::invalid_argument *)
-| EDurUB                                                                      (* conversion double -> rep overflows: undefined behaviour, outside the model *)
+| EDurUB                                                                      (* conversion double -> rep would overflow although the range check passed (edge of the range): outside the model *)
 | EOracle | EShape.                                                           (* model cannot answer (missing oracle entry / ill-shaped state) *)
 
 Inductive exc_class := XNone | XInvalidParam | XInvalidArgument | XUndefined.
 Definition class_of (e : option err) : exc_class :=
   match e with
   | None => XNone
-  | Some (EUnknownKey | EIndexScalar | EEnumUnknown | EDurValue | EDurUnits) => XInvalidParam
+  | Some (EUnknownKey | EIndexScalar | EEnumUnknown | EDurValue | EDurUnits | EDurRange) => XInvalidParam
   | Some (EBadBool | ENumInvalid | ENumRange | ENumSuffix) => XInvalidArgument
   | Some _ => XUndefined
   end.
@@ -83,6 +83,10 @@ Inductive schema :=
 
 Inductive convres (F : Type) := CVal (x : F) | CRange | CMissing.
 Arguments CVal {F} x. Arguments CRange {F}. Arguments CMissing {F}.
+
+(* result of converting a floating number of units to ticks of the field's resolution:
+   TOk z ; TRange = NaN / infinite / outside the range of the representation (the parser throws) ; TUB = outside the model *)
+Inductive tickres := TOk (z : Z) | TRange | TUB.
 
 Inductive leafval (F : Type) := VBool (b : bool) | VInt (z : Z) | VReal (x : F) | VDur (t : Z) | VEnum (z : Z).
 Arguments VBool {F} b. Arguments VInt {F} z. Arguments VReal {F} x. Arguments VDur {F} t. Arguments VEnum {F} z.
@@ -154,16 +158,16 @@ Definition unit_of (u : string) : option nat :=
   else if u =? "min" then Some 4
   else if u =? "h" then Some 5
   else None.
-Definition is_trim (a : ascii) : bool := Ascii.eqb a "+"%char || Ascii.eqb a "0"%char || Ascii.eqb a " "%char.
+Definition is_trim (a : ascii) : bool := Ascii.eqb a "+"%char || Ascii.eqb a " "%char.   (* find_first_not_of("+ ") *)
 Definition is_unit_stop (a : ascii) : bool :=
   is_sign a || is_digit a || Ascii.eqb a ch_dot || Ascii.eqb a " "%char.
 
 Section Model.
   Variable F : Type.
   Variable conv : string -> convres F.             (* std::from_chars value on a syntactically valid prefix *)
-  Variable ticks : nat -> nat -> F -> option Z.    (* ticks period unit x = round<duration<rep,period>>(duration<double,unit>{x}).count() *)
+  Variable ticks : nat -> nat -> F -> tickres.     (* ticks period unit x = range check, then round<duration<rep,period>>(duration<double,unit>{x}).count() *)
 
-  (* parse_duration (the field has been zeroed by the caller: `t = {}`), one parse_single_duration per unit of fuel *)
+  (* parse_duration on a zero-initialised TEMPORARY of the caller, one parse_single_duration per unit of fuel *)
   Fixpoint parse_dur (fuel : nat) (period : nat) (s : string) (t : Z) : Z * option err :=
     match fuel with
     | 0 => (t, Some EOracle)
@@ -188,8 +192,9 @@ Section Model.
               | None => (t, Some EDurUnits)
               | Some u =>
                 match ticks period u x with
-                | None => (t, Some EDurUB)
-                | Some dz => parse_dur fuel' period (sdrop k rest) (t + dz)%Z
+                | TUB => (t, Some EDurUB)
+                | TRange => (t, Some EDurRange)
+                | TOk dz => parse_dur fuel' period (sdrop k rest) (t + dz)%Z
                 end
               end
             end
@@ -198,7 +203,8 @@ Section Model.
       end
     end.
 
-  (* leaf setters; the returned value is what is stored when the call returns OR throws *)
+  (* leaf setters; the returned value is what is stored when the call returns OR throws.
+     Numbers, durations are parsed into a temporary and assigned only on success. *)
   Definition set_leaf (t : leafty) (old : leafval F) (key val : string) : leafval F * option err :=
     if negb (key =? "") then (old, Some EIndexScalar) else
     match t with
@@ -208,21 +214,22 @@ Section Model.
     | LInt lo hi => match scan_int lo hi val with
                     | IInvalid => (old, Some ENumInvalid)
                     | IRange => (old, Some ENumRange)
-                    | IVal z rest => (VInt z, if rest =? "" then None else Some ENumSuffix)
+                    | IVal z rest => if rest =? "" then (VInt z, None) else (old, Some ENumSuffix)
                     end
     | LReal => match scan_real_len val with
                | None => (old, Some ENumInvalid)
                | Some n => match conv (stake n val) with
                            | CRange => (old, Some ENumRange)
                            | CMissing => (old, Some EOracle)
-                           | CVal x => (VReal x, if sdrop n val =? "" then None else Some ENumSuffix)
+                           | CVal x => if sdrop n val =? "" then (VReal x, None) else (old, Some ENumSuffix)
                            end
                end
     | LEnum tbl => match assoc val tbl with
                    | Some z => (VEnum z, None)
                    | None => (old, Some EEnumUnknown)
                    end
-    | LDur p => let (t', e) := parse_dur (S (String.length val)) p val 0%Z in (VDur t', e)
+    | LDur p => let (t', e) := parse_dur (S (String.length val)) p val 0%Z in
+                match e with None => (VDur t', None) | Some er => (old, Some er) end
     | LOpaque => (old, Some EShape)
     end.
 
@@ -285,9 +292,8 @@ Section Model.
         end
     end.
 
-  (* set_param(vec&, ParamString): the key is NOT inspected; resize to (#commas + 1) happens before any element is parsed.
-     Result: new size, the elements parsed so far (including a half-written one), error. Elements beyond are unspecified
-     (Eigen's resize does not preserve contents when the size changes). *)
+  (* set_param(vec&, ParamString): assert_key_empty, then a temporary of (#commas + 1) elements is filled element by
+     element and assigned to the target only when every element was accepted. *)
   Fixpoint set_vec_elems (n : nat) (s : string) (acc : list F) : list F * option err :=
     match n with
     | 0 => (rev acc, None)
@@ -299,13 +305,14 @@ Section Model.
                   | CRange => (rev acc, Some ENumRange)
                   | CMissing => (rev acc, Some EOracle)
                   | CVal x => if sdrop k e1 =? "" then set_vec_elems n' rem (x :: acc)
-                              else (rev (x :: acc), Some ENumSuffix)
+                              else (rev acc, Some ENumSuffix)
                   end
       end
     end.
-  Definition set_vec (key val : string) : nat * list F * option err :=
-    let n := S (count_char ch_comma val) in
-    let (xs, e) := set_vec_elems n val [] in (n, xs, e).
+  Definition set_vec (old : list F) (key val : string) : list F * option err :=
+    if negb (key =? "") then (old, Some EIndexScalar) else
+    let (xs, e) := set_vec_elems (S (count_char ch_comma val)) val [] in
+    match e with None => (xs, None) | Some er => (old, Some er) end.
 
   (* ---------------------------------------------------------------- paths (for the statements) *)
   Fixpoint get (v : value F) (p : list nat) : option (value F) :=
